@@ -147,8 +147,11 @@ func simC16(c *sim.Ctx) {
 	late := c.Chance(300)
 	// the consumer asks for the channel a second time at this step (same channel, no second reader)
 	again := -1
+	toggle := false
 	if channel && c.Chance(200) {
 		again = c.Draw(20)
+		// ... and the program switches NoCopy on before asking again
+		toggle = c.Chance(500)
 	}
 	c.Ev("config", b2i(zero), b2i(channel), int64(opt), int64(cancelAt), b2i(abandon), int64(nsub), int64(again), b2i(late))
 	bubble.Run(c, func(b *bubble.B) {
@@ -360,6 +363,33 @@ func simC16(c *sim.Ctx) {
 				useCtx := steps%2 == 0
 				b.Step(consumer, func() {
 					var ch2 chan gopacket.Packet
+					if toggle && zero && !noCopy {
+						// The reader goroutine is parked (in the source, in a send or in
+						// its pause) and looks at the options only after its next read:
+						// NoCopy is switched on, the channel asked for again - which has
+						// to be refused like a first request - and switched off again
+						// before anything else runs.
+						c.Fault("nocopy_switched_on_before_second_request")
+						ps.NoCopy = true
+						refused := false
+						func() {
+							defer func() {
+								if recover() != nil {
+									refused = true
+								}
+							}()
+							if useCtx {
+								ps.PacketsCtx(context.Background())
+							} else {
+								ps.Packets()
+							}
+						}()
+						ps.NoCopy = false
+						if !refused {
+							consumer.Fail("zero-copy", "not-refused", "Packets", "a zero-copy data source with NoCopy decoding was accepted on the channel interface when the channel was requested a second time (NoCopy switched on after the first request)")
+						}
+						return
+					}
 					if useCtx {
 						ch2 = ps.PacketsCtx(context.Background())
 					} else {
